@@ -67,6 +67,32 @@ def main():
     for s_ in PRIMS:
         for d in PRIMS:
             cells.append(("cast", "(cast %s %s)" % (s_, d), "fn main()\n{\n\tvar a: %s = %s;\n\tvar c: %s = a as %s;\n}\n" % (s_, lit(s_), d, d)))
+    # calls: every number of arguments against every number of parameters, in expression and statement position, with
+    # typed variables and with suffixed literals: accepted exactly when the counts agree (E510 too few, E511 too many)
+    arity = []
+    for nparams in range(0, 4):
+        for nargs in range(0, 5):
+            for stmt in (False, True):
+                for argkind in ("var", "lit"):
+                    params = ", ".join("p%d: i32" % k for k in range(nparams))
+                    args = ", ".join(("a" if argkind == "var" else "%di32" % (k + 1)) for k in range(nargs))
+                    if stmt:
+                        f = "fn callee(%s)\n{\n}\n" % params
+                        use = "\tcallee(%s);\n" % args
+                    else:
+                        f = "fn callee(%s) -> i32\n{\n\treturn: 7\n}\n" % params
+                        use = "\tvar r: i32 = callee(%s);\n" % args
+                    arity.append((nparams, nargs, f + "fn main()\n{\n\tvar a: i32 = 1;\n" + use + "}\n"))
+    ah = run_harness(["alpha\tcheck\tm.pn\t" + esc(src) for _, _, src in arity])
+    arity_bad = []
+    for (nparams, nargs, src), ha in zip(arity, ah):
+        hh, hd = kv(ha)
+        codes = codes_of(hd) if hh == "err" else []
+        want = 0 if nargs == nparams else (510 if nargs < nparams else 511)
+        ok = (hh == "ok") if want == 0 else (want in codes)
+        dist["arity:%s" % ("ok" if want == 0 else "E%d" % want)] += 1
+        if not ok:
+            arity_bad.append((nparams, nargs, src, ha, want))
     m = run_model(["optype\t" + rq for _, rq, _ in cells])
     h = run_harness(["alpha\tcheck\tm.pn\t" + esc(src) for _, _, src in cells])
     agreeing = total = 0
@@ -83,6 +109,13 @@ def main():
             rep.violation("cell:" + rq, {"why": "model expects %s, compiler says %s %s" % ("E%d" % exp if exp else "acceptance", hh, codes),
                                          "source": src, "harness_request": "alpha\tcheck\tm.pn\t" + esc(src),
                                          "model_request": "optype\t" + rq, "implementation": ha[:300]})
+    for (nparams, nargs, src, ha, want) in arity_bad:
+        rep.violation("arity:%d:%d:%s" % (nparams, nargs, src[:200]), {
+            "why": "a call with %d argument(s) to a function with %d parameter(s): expected %s, compiler says %s" % (
+                nargs, nparams, "acceptance" if want == 0 else "E%d" % want, ha[:200]),
+            "source": src, "harness_request": "alpha\tcheck\tm.pn\t" + esc(src), "implementation": ha[:300]})
+    total += len(arity)
+    agreeing += len(arity) - len(arity_bad)
     # type-breaking single edits of well-typed generated programs: must be rejected (with a typing code)
     TYPING = set(range(500, 600)) | {333, 334, 330, 331, 332, 335, 352, 354}
     nmut = 3000 if thorough else 150
@@ -117,7 +150,7 @@ def main():
         "evaluations": total, "distinct_nontrivial": total,
         "rule": "exhaustive operator x type matrices: 10 binary operators x 13 x 13 primitive operand types, 6 comparisons x "
                 "13 x 13, 6 comparisons and 2 binary operators on pointers to every pair of pointee types (one and two levels), a "
-                "pointer against its pointee type, 2 unary operators x 13, all 13 x 13 casts (each cell a small program; verdict and code "
+                "pointer against its pointee type, 2 unary operators x 13, calls with 0..4 arguments against 0..3 parameters, all 13 x 13 casts (each cell a small program; verdict and code "
                 "vs the Lean tables); plus well-typed generated programs with one type-breaking edit (declared type changed, "
                 "literal of another type, bool/int confusion, wrong argument type, missing/extra argument, wrong return type, "
                 "unsigned negation, signed bitwise): the original must be accepted, the mutant rejected with a typing code",
